@@ -86,6 +86,10 @@ type plannedOp struct {
 	Kind  string `json:"kind"`
 	Fault string `json:"fault,omitempty"`
 	Stale bool   `json:"stale,omitempty"` // if the contender's connection is broken, call on it anyway (as util.Retry does)
+	// Resign only: the StallNth-th store request of the call is delivered late, after StallSteps
+	// further steps (clock advances, other contenders act); the contender is busy meanwhile
+	StallNth   int `json:"stall_nth,omitempty"`
+	StallSteps int `json:"stall_steps,omitempty"`
 	kind  opKind
 	fault leasestore.Fault
 }
@@ -212,6 +216,24 @@ func makePlan(r *harness.Run, idx int) *plan {
 		}
 		p.Steps = append(p.Steps, st)
 	}
+	// late delivery of one request of a Resign call (own PRNG stream: the plans above stay as they were)
+	srng := r.Rand(fmt.Sprintf("stall-%d", idx))
+	for si := range p.Steps {
+		for oi := range p.Steps[si].Ops {
+			o := &p.Steps[si].Ops[oi]
+			if o.kind != kResign || o.fault != leasestore.FaultNone || srng.Intn(100) >= 35 {
+				continue
+			}
+			o.StallNth = 1
+			if srng.Intn(3) > 0 {
+				o.StallNth = 2
+			}
+			o.StallSteps = 1 + srng.Intn(3)
+			if srng.Intn(2) == 0 { // let the lease run out while the request is under way
+				p.Steps[si].AdvClass, p.Steps[si].Advance = "ttl+1", ttl+1
+			}
+		}
+	}
 	return p
 }
 
@@ -228,6 +250,7 @@ type opRec struct {
 	Call    int64  `json:"call"`
 	Ret     int64  `json:"ret"`
 	Fault   string `json:"fault,omitempty"`
+	Stall   string `json:"late_delivery,omitempty"`
 	Outcome string `json:"outcome"`
 	Err     string `json:"err,omitempty"`
 	Before  string `json:"store_before"`
@@ -271,10 +294,20 @@ type history struct {
 	ivs    []interval
 	lclock atomic.Int64
 	failed bool // harness-side problem: rest of the history skipped
+
+	stalled *stalledOp // at most one call with a request under way across steps
+}
+
+type stalledOp struct {
+	rec       *opRec
+	stall     *leasestore.Stall
+	done      chan struct{}
+	mark      int
+	releaseAt int
 }
 
 func runHistories(r *harness.Run) {
-	n := r.N(300, 20000)
+	n := r.N(2500, 40000)
 	workers := runtime.GOMAXPROCS(0)
 	if workers > 12 {
 		workers = 12
@@ -398,6 +431,11 @@ func (h *history) run() {
 
 	for si := range h.p.Steps {
 		step := &h.p.Steps[si]
+		if h.stalled != nil && si >= h.stalled.releaseAt {
+			if !h.deliverStalled(si) {
+				break
+			}
+		}
 		if !h.burst(si, step) || h.failed {
 			break
 		}
@@ -411,6 +449,9 @@ func (h *history) run() {
 			h.r.Count("expiries_observed", 1)
 		}
 		h.checkHolderAge("after-clock-step", si)
+	}
+	if !h.failed && h.stalled != nil {
+		h.deliverStalled(len(h.p.Steps))
 	}
 	if !h.failed {
 		// drain: everybody is silent; one lease period (+1 ms, Redis' expiry rule) later nobody holds the lease
@@ -465,6 +506,17 @@ func (h *history) checkHolderAge(where string, si int) {
 func (h *history) burst(si int, step *planStep) bool {
 	st := h.st
 	now := st.Now()
+	if h.stalled != nil { // a contender inside a call makes no other call
+		kept := make([]plannedOp, 0, len(step.Ops))
+		for _, o := range step.Ops {
+			if o.C == h.stalled.rec.C {
+				h.r.Count("ops_skipped_contender_busy", 1)
+				continue
+			}
+			kept = append(kept, o)
+		}
+		step = &planStep{Ops: kept, Mode: step.Mode, Advance: step.Advance, AdvClass: step.AdvClass}
+	}
 	// quiescent point: broken contenders reconnect (unless the plan makes them retry on the dead connection)
 	stale := map[int]bool{}
 	for _, o := range step.Ops {
@@ -486,6 +538,8 @@ func (h *history) burst(si int, step *planStep) bool {
 	mark := st.LogLen()
 
 	recs := make([]*opRec, len(step.Ops))
+	stallIdx, stallSteps := -1, 0
+	var stall *leasestore.Stall
 	for i, o := range step.Ops {
 		c := h.cs[o.C]
 		recs[i] = &opRec{Step: si, C: o.C, ID: c.id, Tag: c.tag, Kind: o.Kind, kind: o.kind, VT: now}
@@ -501,13 +555,26 @@ func (h *history) burst(si int, step *planStep) bool {
 		if o.kind == kCampaign || o.kind == kRenew {
 			c.lastIssue = now
 		}
+		if o.kind == kResign && o.StallNth > 0 && h.stalled == nil && stallIdx < 0 && !c.broken && o.fault == leasestore.FaultNone {
+			stallIdx = i
+			stall = st.StallNth(c.tag, o.StallNth)
+			stallSteps = o.StallSteps
+			recs[i].Stall = fmt.Sprintf("request %d of the call held for %d step(s)", o.StallNth, o.StallSteps)
+		}
 	}
 	var wg sync.WaitGroup
 	start := make(chan struct{})
+	opDone := make([]chan struct{}, len(step.Ops))
 	for i := range step.Ops {
-		wg.Add(1)
-		go func(rec *opRec, el cluster.Election) {
-			defer wg.Done()
+		opDone[i] = make(chan struct{})
+		if i != stallIdx {
+			wg.Add(1)
+		}
+		go func(rec *opRec, el cluster.Election, fin chan struct{}, counted bool) {
+			defer close(fin)
+			if counted {
+				defer wg.Done()
+			}
 			<-start
 			ctx := context.Background()
 			rec.Call = h.lclock.Add(1)
@@ -526,10 +593,19 @@ func (h *history) burst(si int, step *planStep) bool {
 				}
 			}
 			rec.Ret = h.lclock.Add(1)
-		}(recs[i], h.cs[step.Ops[i].C].el)
+		}(recs[i], h.cs[step.Ops[i].C].el, opDone[i], i != stallIdx)
 	}
 	done := make(chan struct{})
-	go func() { wg.Wait(); close(done) }()
+	go func() {
+		wg.Wait()
+		if stallIdx >= 0 { // quiescent = the call returned (its request was not the one selected) or its request is held
+			select {
+			case <-opDone[stallIdx]:
+			case <-stall.Parked():
+			}
+		}
+		close(done)
+	}()
 	close(start)
 	select {
 	case <-done:
@@ -540,7 +616,21 @@ func (h *history) burst(si int, step *planStep) bool {
 		<-done
 		return false
 	}
-	// quiescent: every call returned; the store executes nothing any more
+	// quiescent: every call returned (or has its request held); the store executes nothing any more
+	if stallIdx >= 0 {
+		select {
+		case <-opDone[stallIdx]:
+			stall.Release() // the call had fewer requests: nothing was held
+			recs[stallIdx].Stall = ""
+			h.r.Count("late_delivery_not_reached", 1)
+		default:
+			rec := recs[stallIdx]
+			h.stalled = &stalledOp{rec: rec, stall: stall, done: opDone[stallIdx], mark: mark, releaseAt: si + stallSteps}
+			h.updateBelief(rec, now) // the instance has left the leader role when it calls Resign
+			recs = append(recs[:stallIdx:stallIdx], recs[stallIdx+1:]...)
+			h.r.Count("late_delivery_held", 1)
+		}
+	}
 	final := stateOf(st.Peek(h.p.Key))
 	entries := st.LogFrom(mark)
 	for _, rec := range recs {
@@ -562,6 +652,46 @@ func (h *history) burst(si int, step *planStep) bool {
 	h.r.Count("bursts", 1)
 	h.r.Count(fmt.Sprintf("burst_size_%d", len(recs)), 1)
 	h.r.Count("burst_mode_"+step.Mode, 1)
+	return true
+}
+
+// deliverStalled: the held request reaches the store now (quiescent point, virtual time `now`);
+// the call completes and is judged as a one-call burst at this time.
+func (h *history) deliverStalled(si int) bool {
+	so := h.stalled
+	h.stalled = nil
+	st := h.st
+	now := st.Now()
+	init := stateOf(st.Peek(h.p.Key))
+	so.stall.Release()
+	select {
+	case <-so.done:
+	case <-time.After(90 * time.Second): // watchdog only
+		h.r.Inconclusive("%s step %d: the call with the late request did not return within 90 s (watchdog)", h.p.Case, si)
+		h.failed = true
+		st.Close()
+		<-so.done
+		return false
+	}
+	final := stateOf(st.Peek(h.p.Key))
+	rec := so.rec
+	for _, e := range st.LogFrom(so.mark) {
+		if e.Tag == rec.Tag && e.Call > 0 {
+			rec.entries = append(rec.entries, e)
+		}
+	}
+	h.classify(rec)
+	h.ops = append(h.ops, rec)
+	h.checkOp(rec, now)
+	if rec.out.Open {
+		h.cs[rec.C].broken = true
+	}
+	h.linearizable(si, []*opRec{rec}, init, final, now)
+	h.r.Count("late_delivery_completed", 1)
+	if init.Holder != "" && init.Holder != rec.ID {
+		h.r.Count("late_delivery_completed_while_other_holds", 1)
+	}
+	h.r.Distinct(fmt.Sprintf("late-resign|%s|holder-at-delivery=%s", rec.Stall, map[bool]string{true: "other", false: "own-or-none"}[init.Holder != "" && init.Holder != rec.ID]))
 	return true
 }
 
